@@ -199,81 +199,92 @@ def s4(ctx, rid):
                 witness=['call chain: ' + ' -> '.join(chain)] + ['%s bb%d %s' % (cur, x, b.where(x)) for x in p])
 
 
+def true_target(sw_term):
+    """target of the `true` (non-zero) edge of a switch on a bool"""
+    for v, tg in sw_term['vals']:
+        if v != 0:
+            return tg
+    if all(v == 0 for v, _ in sw_term['vals']):
+        return sw_term['otherwise']
+    return None
+
+
 def s5(ctx, rid):
     prog = ctx.prog
     trig = 'storage::core::Inner::<K>::should_try_fsync'
     req = 'storage::observer::Observer::<K>::try_fsync_data'
     prog.one(trig)
     prog.one(req)
+    # (1) every append to the active blob in the storage layer feeds a dirty-byte check
+    trig_calls = [c for f in prog.fns.values() for c in f.calls if trig in prog.resolve(c)]
     n = 0
     for f in prog.fns.values():
-        if f.file.startswith('src/storage/') is False:
+        if not f.file.startswith('src/storage/'):
             continue
         for c in f.calls:
             tg = prog.resolve(c)
-            is_append = any(t in ('blob::core::Blob::<K>::write',) for t in tg)
-            is_del = any(t == 'storage::core::Storage::<K>::delete_in_active' for t in tg)
-            if not (is_append or is_del) or c.bb not in f.reachable():
+            is_write = 'blob::core::Blob::<K>::write' in tg
+            is_del = 'storage::core::Storage::<K>::delete_in_active' in tg
+            if not (is_write or is_del) or c.bb not in f.reachable():
                 continue
             n += 1
-            trigs = [t for t in f.calls if trig in prog.resolve(t)]
-            key = 'trigger-after|%s|%s' % (f.id, c.name)
-            if not trigs:
-                ctx.bad(rid, key, c.where(), 'no dirty-byte check follows this append in the same body')
+            key = 'trigger-after|%s|%s' % (prog.fns[f.id].root, c.name)
+            fed = [t for t in trig_calls if t.fn.id == f.id and any(o.kind == 'call' and o.data.bb == c.bb and o.fn.id == f.id for o in core.origins(f, t.args[1]))]
+            if not fed:
+                ctx.bad(rid, key, c.where(), 'no dirty-byte check uses the result of this append')
                 continue
-            ob = core.ok_block(f, c) or core.completion_block(f, c)
-            exits = [bb for (bb, k, _) in core.exit_defs(f) if k in ('ok', 'fwd', 'val') and bb in f.reachable()]
-            if is_append:
-                reach = f.reach_from([ob], avoid_exit=[t.bb for t in trigs])
-                badx = [e for e in exits if e in reach and e not in [t.bb for t in trigs]]
+            if is_write:
+                ob = core.ok_block(f, c) or core.completion_block(f, c)
+                exits = [bb for (bb, k, _) in core.exit_defs(f) if k in ('ok', 'fwd', 'val') and bb in f.reachable()]
+                reach = f.reach_from([ob], avoid_exit=[t.bb for t in fed])
+                badx = [e for e in exits if e in reach]
                 if badx:
                     ctx.bad(rid, key, c.where(), 'an ok-return is reachable after the append without the dirty-byte check',
-                            witness=['bb%d %s' % (b, f.where(b)) for b in (f.path([ob], badx, avoid_exit=[t.bb for t in trigs]) or [])])
+                            witness=['bb%d %s' % (b, f.where(b)) for b in (f.path([ob], badx, avoid_exit=[t.bb for t in fed]) or [])])
                     continue
-            else:
-                # delete path: the check is conditional on a deletion having been appended to the active blob (Option result);
-                # require: the check's operand originates in this call's result and is reachable from it
-                okd = False
-                for t in trigs:
-                    ogs = core.origins(f, t.args[1])
-                    if any(o.kind == 'call' and o.data.bb == c.bb for o in ogs) and t.bb in f.reach_from([ob]):
-                        okd = True
-                if not okd:
-                    ctx.bad(rid, key, c.where(), 'the dirty-byte check does not use the result of the active-blob deletion')
-                    continue
-            # the true edge of the check reaches the request on every path to the exit
-            good = True
-            for t in trigs:
-                sw = t.t['t']
-                tt = f.blocks[sw]['t']
-                if tt['k'] != 'switch':
-                    good = False
-                    continue
-                true_tgt = tt['otherwise'] if all(v == 0 for v, _ in tt['vals']) else None
-                if true_tgt is None:
-                    for v, tg2 in tt['vals']:
-                        if v != 0:
-                            true_tgt = tg2
-                reqs = [r for r in f.calls if req in prog.resolve(r)]
-                rb = [core.completion_block(f, r) for r in reqs]
-                reach = f.reach_from([true_tgt], avoid_enter=[x for x in rb if x is not None])
-                if any(e in reach for e in exits):
-                    good = False
-            if good:
-                ctx.ok(rid, key, c.where(), 'dirty-byte check follows; its true edge always issues the sync request')
-            else:
-                ctx.bad(rid, key, c.where(), 'the true edge of the dirty-byte check can reach the ok-return without issuing the sync request')
-    # worker side: the request message reaches a raw sync
+            ctx.ok(rid, key, c.where(), 'the dirty-byte check consumes the append result%s' % (' on every path to the ok-return' if is_write else ' (conditional on a deletion in the active blob)'))
+    if n < 2:
+        raise core.AnchorLost('append sites in storage write/delete paths: %d' % n)
+    # (2) every dirty-byte check controls a sync request: some request call is dominated by the true edge of a switch whose
+    #     condition originates in the check, and from that edge every path to an ok-return issues the request
+    served = set()
+    reqs = [c for f in prog.fns.values() for c in f.calls if req in prog.resolve(c) and c.name != 'poll']
+    for r in reqs:
+        f = r.fn
+        exits = [bb for (bb, k, _) in core.exit_defs(f) if k in ('ok', 'fwd', 'val') and bb in f.reachable()]
+        rb = core.completion_block(f, r)
+        for i, b in enumerate(f.blocks):
+            if b['c'] or b['t']['k'] != 'switch' or i not in f.reachable():
+                continue
+            tt = true_target(b['t'])
+            if tt is None or not f.dominates(tt, r.bb):
+                continue
+            if r.bb in f.reach_from([0], avoid_enter=[tt]):
+                continue
+            ogs = core.origins_deep(prog, f, b['t']['o'], depth=3)
+            ts = [o.data for o in ogs if o.kind == 'call' and trig in prog.resolve(o.data)]
+            if not ts:
+                continue
+            reach = f.reach_from([tt], avoid_enter=[rb] if rb is not None else [])
+            if any(e in reach for e in exits):
+                continue
+            for t in ts:
+                served.add((t.fn.id, t.bb))
+    for t in trig_calls:
+        key = 'check-issues-request|%s' % prog.fns[t.fn.id].root
+        if (t.fn.id, t.bb) in served:
+            ctx.ok(rid, key, t.where(), 'a sync request is issued on the true edge of this check on every path to the ok-return')
+        else:
+            ctx.bad(rid, key, t.where(), 'no sync request is controlled by the result of this dirty-byte check')
+    # (3) worker side: the request message reaches a raw sync
     pm = 'storage::observer_worker::ObserverWorker::<K>::process_msg'
     prog.one(pm)
     L, E = prog.may_reach()
-    if any(e in prims.RAW_SYNC for e in E.get(pm, ())):
+    reach_sync = any(e in prims.RAW_SYNC for e in E.get(pm, ()))
+    if reach_sync:
         ctx.ok(rid, 'worker-reaches-sync|' + pm, prog.fns[pm].where(), 'message handler may reach std::fs::File::sync_*')
     else:
         ctx.bad(rid, 'worker-reaches-sync|' + pm, prog.fns[pm].where(), 'no path in the call graph from the worker message handler to a file sync')
-    # the background path must not be a no-op: Inner::fsyncdata reaches the sync too
-    if n < 2:
-        raise core.AnchorLost('append sites in storage write/delete paths: %d' % n)
 
 
 def s6(ctx, rid):
@@ -352,7 +363,7 @@ RULES = [
     Rule('C12.S2', 'every index dump / index-file construction call is dominated by an ok sync of the blob file (in the function or in every caller)', s2, 3),
     Rule('C12.S3', 'between take() of the active blob and its push to the closed list an ok sync of its file is passed on every path', s3, 1),
     Rule('C12.S4', 'every ok-return of the public fsyncdata on which an active blob exists is preceded by an ok file sync', s4, 1),
-    Rule('C12.S5', 'after every append in the write/delete paths the dirty-byte check is passed and its true edge issues the sync request; the worker handler reaches a sync', s5, 3),
+    Rule('C12.S5', 'every append to the active blob feeds the dirty-byte check (on every path to the ok-return in the write path); every check controls a sync request on its true edge; the worker handler reaches a sync', s5, 5),
     Rule('C12.S6', 'the synced-size counter is only advanced by fetch_max after an ok sync_all, with a size captured before the sync', s6, 2),
     Rule('C12.S7', 'in index construction the written-flag rewrite follows the ok body append and is followed by an ok sync', s7, 1),
 ]
